@@ -83,8 +83,15 @@ func TraceOf(cx *layer4.Connection) *Trace {
 	if t, ok := cx.GetVar(traceVar).(*Trace); ok {
 		return t
 	}
+	if Global != nil {
+		return Global
+	}
 	return &Trace{}
 }
+
+// Global receives the events of connections that carry no trace of their own (connections
+// created inside the code under test, e.g. by the listener wrapper).
+var Global *Trace
 
 func init() {
 	caddy.RegisterModule(&Need{})
@@ -100,7 +107,12 @@ type Need struct {
 	K    int    `json:"k"`
 	Pat  string `json:"pat,omitempty"`
 	Mode string `json:"mode,omitempty"` // full (io.ReadFull) | peek (MatchingBytes) | one (Read loop) | drain (read until error)
+	// ErrOn: when the first K bytes equal ErrOn the matcher fails with an error (not a verdict).
+	ErrOn string `json:"err_on,omitempty"`
 }
+
+// ErrMatcher is the error a Need matcher configured with ErrOn reports.
+var ErrMatcher = errors.New("harness matcher error")
 
 func (*Need) CaddyModule() caddy.ModuleInfo {
 	return caddy.ModuleInfo{ID: "layer4.matchers.h_need", New: func() caddy.Module { return new(Need) }}
@@ -158,6 +170,9 @@ func (m *Need) Match(cx *layer4.Connection) (bool, error) {
 	}
 	verdict := "more"
 	matched := false
+	if err == nil && m.ErrOn != "" && len(got) >= m.K && string(got[:m.K]) == m.ErrOn {
+		err = ErrMatcher
+	}
 	if err == nil {
 		verdict = m.Decide(got)
 		matched = verdict == "yes"
